@@ -17,10 +17,11 @@ def mir_path(features="default"):
         if os.path.exists(out) and os.path.getsize(out) > 1000000:
             return out
         os.makedirs(os.path.dirname(out), exist_ok=True)
-        # remove stale dumps of the same feature set
-        for f in os.listdir(os.path.dirname(out)):
-            if f.startswith(f"rzmq-{features}-"):
-                os.remove(os.path.join(os.path.dirname(out), f))
+        # keep the three most recent dumps of this feature set (concurrent runs on other trees), drop older ones
+        olds = sorted((f for f in os.listdir(os.path.dirname(out)) if f.startswith(f"rzmq-{features}-") and f.endswith(".mir")),
+                      key=lambda f: os.path.getmtime(os.path.join(os.path.dirname(out), f)))
+        for f in olds[:-3]:
+            os.remove(os.path.join(os.path.dirname(out), f))
         tdir = os.path.join(BUILD, "mir-target-" + features)
         # force re-emission even when cargo thinks the crate is fresh
         marker = os.path.join(tdir, "debug", ".fingerprint")
